@@ -9,6 +9,9 @@ Ltac jumpi_crush :=
   repeat match goal with
          | |- context [Z.eqb ?a ?b] => destruct (Z.eqb_spec a b)
          | |- context [Z.ltb ?a ?b] => destruct (Z.ltb_spec a b)
+         | |- context [Z.leb ?a ?b] => destruct (Z.leb_spec a b)
+         | |- context [Z.gtb ?a ?b] => rewrite (Z.gtb_ltb a b)
+         | |- context [Z.geb ?a ?b] => rewrite (Z.geb_leb a b)
          end; cbn; try lia; try tauto; try congruence; auto.
 
 (* a branch side is abandoned only if its feasibility check answered unsat, or the
